@@ -2,6 +2,7 @@
 
 from __future__ import annotations
 
+import contextlib
 import logging
 import os
 import shlex
@@ -14,7 +15,10 @@ from typing import TYPE_CHECKING, Any, Dict, List, Optional, Tuple, Union
 import numpy as np
 
 from infretis.classes.engines.cp2k import kinetic_energy, reset_momentum
-from infretis.classes.engines.enginebase import EngineBase
+from infretis.classes.engines.enginebase import (
+    EngineBase,
+    terminate_process,
+)
 from infretis.classes.engines.engineparts import (
     ReadAndProcessOnTheFly,
     lammpstrj_reader,
@@ -457,7 +461,9 @@ class LAMMPSEngine(EngineBase):
         return_code = None
         lammps_was_terminated = False
         step_nr = 0
-        with open(out_name, "wb") as fout, open(err_name, "wb") as ferr:
+        with open(out_name, "wb") as fout, open(
+            err_name, "wb"
+        ) as ferr, contextlib.ExitStack() as cleanup:
             exe = subprocess.Popen(
                 cmd,
                 stdin=subprocess.PIPE,
@@ -467,6 +473,8 @@ class LAMMPSEngine(EngineBase):
                 cwd=cwd,
                 preexec_fn=os.setsid,
             )
+            # do not leave the program running if an exception ends this block
+            cleanup.callback(terminate_process, exe)
             # wait for trajectories to appear
             while not os.path.exists(traj_file):
                 sleep(self.sleep)
